@@ -65,10 +65,14 @@ _poll_and_add_to_jobs_(struct qb_loop_source *src, int32_t ms_timeout)
 		memcpy(&s->ufds[i], &pe->ufd, sizeof(struct pollfd));
 	}
 
-retry_poll:
 	res = poll(s->ufds, s->poll_entry_count, ms_timeout);
 	if (errno == EINTR && res == -1) {
-		goto retry_poll;
+		/*
+		 * Part of the timeout has gone by: waiting for all of it
+		 * again would delay the timer it was computed for.  Let the
+		 * main loop work out how long to wait now.
+		 */
+		return 0;
 	} else if (res == -1) {
 		return -errno;
 	}
